@@ -2728,6 +2728,44 @@ fn gen_c08(o: &mut Out, r: &mut Rng, d: &GDict, tier: &str, cuts: bool) {
                     o.line(&format!("serve {} d:{} {}", all_ok.join(","), hex(&stream), wr.join(",")));
                 }
             }
+            // both at once (`C09_cut_both`): the request stream ends at p - by close or by reset - while the write side fails
+            // after q octets; whichever comes first ends the connection, and nothing happens after it
+            for _ in 0..(if thorough { 600 } else { 60 }) {
+                let p = r.below(stream.len() as u64 + 1) as usize;
+                let q = r.below(total_ans as u64 + 1) as usize;
+                o.case(&format!("serve readcut={} writecut={} reqlens={} anslens={}", p, q, rl.join(","), al.join(",")));
+                setup(o, r);
+                let head = &stream[..p];
+                let rd = match r.below(3) {
+                    0 => format!("{},e", if p == 0 { "p".to_string() } else { format!("d:{}", hex(head)) }),
+                    1 => {
+                        let mut ev: Vec<String> = head.iter().map(|b| format!("d:{:02x}", b)).collect();
+                        ev.push("f".into());
+                        ev.join(",")
+                    }
+                    _ => format!("{},f", if p == 0 { "p".to_string() } else { random_events(r, head) }),
+                };
+                // (an accept event belongs to one write call: the pieces are cut answer by answer)
+                let mut wr: Vec<String> = vec![];
+                let mut left = q;
+                for f in &af {
+                    let mut room = f.len().min(left);
+                    left -= room;
+                    while room > 0 {
+                        let k = 1 + r.below(room.min(40) as u64) as usize;
+                        wr.push(format!("a{}", k));
+                        if r.chance(1, 4) {
+                            wr.push("p".into());
+                        }
+                        room -= k;
+                    }
+                    if left == 0 {
+                        break;
+                    }
+                }
+                wr.push(["f", "a0", "i"][q % 3].into());
+                o.line(&format!("serve {} {} {}", all_ok.join(","), rd, wr.join(",")));
+            }
         }
     }
 }
